@@ -157,7 +157,14 @@ def run_jobs(jobs, nproc, hard_timeout):
                 if pr.is_alive():
                     pr.kill()
             elif not pr.is_alive():
-                r = dict(error="worker died (exit %s)" % pr.exitcode, failures=[], obligations={}, paths=0, wall=time.time() - t0)
+                # the child may have sent its result and exited between the two tests above
+                if pc.poll(0.5):
+                    try:
+                        r = pc.recv()
+                    except EOFError:
+                        r = None
+                if r is None:
+                    r = dict(error="worker died (exit %s)" % pr.exitcode, failures=[], obligations={}, paths=0, wall=time.time() - t0)
             elif time.time() - t0 > hard_timeout:
                 pr.kill()
                 pr.join(5)
